@@ -480,7 +480,7 @@ func (c *vfC23Ctx) selects(q Query, fwd []vfRow) bool {
 		}
 		if onlyM, onlyE := vfDiff(want, got, c.cols); len(onlyM)+len(onlyE) > 0 {
 			cl := "C23/select-wrong-rows"
-			if lbl := vfC22Diagnose("rows", map[bool]string{true: "extra-only"}[len(onlyM) == 0], "", &vfResult{strategy: c.strategy}, c.q, c.cols, false); lbl != "" {
+			if lbl := vfC22Diagnose("rows", "c23"+map[bool]string{true: "-extra-only"}[len(onlyM) == 0], "", &vfResult{strategy: c.strategy}, c.q, c.cols, false); lbl != "" {
 				cl += "/" + lbl
 			}
 			c.violate(cl, "Select("+vfRowText(base, shuffled)+") then reading everything", map[string]any{"missing": vfTruncList(onlyM, 10), "rows": len(want)},
@@ -688,7 +688,7 @@ func (c *vfC23Ctx) lookup() bool {
 				act = vfRowText(got, c.cols)
 			}
 			cl := "C23/lookup-wrong/" + kind
-			if lbl := vfC22Diagnose("rows", map[bool]string{true: "extra-only"}[want == nil], "", &vfResult{strategy: c.strategy}, c.q, c.cols, false); lbl != "" {
+			if lbl := vfC22Diagnose("rows", "c23"+map[bool]string{true: "-extra-only"}[want == nil], "", &vfResult{strategy: c.strategy}, c.q, c.cols, false); lbl != "" {
 				cl = "C23/lookup-wrong/" + lbl
 			}
 			c.violate(cl, "Lookup("+vfRowText(base, cols)+"), reported key "+strings.Join(key, ","), exp, act, "")
